@@ -23,10 +23,35 @@ NEEDS = {
  "C18": ("process_indels: REF/ALT strings chosen with >=, genotype bitsets with >", "an indel carried by exactly half of the samples (tie): every sample is genotyped for the allele it does not carry"),
  "C19": ("merge(): load errors of the second and later inputs silently dropped (flat_map over Result)", "ska merge a.skf DAMAGED.skf -o m: exits 0 and writes m.skf without the damaged file's samples"),
  "C20": ("fit_histogram truncation: < MIN_FREQ became <= MIN_FREQ", "a read pair whose last multiplicity shared by >= 50 split k-mers is shared by exactly 50"),
+ # second batch: the agents were asked for a different kind of change than the obvious single-token one
+ "C01b": ("add_file_kmers skips the dictionary update when the window has the same split k-mer as the previous one (stale last_added, carried across records)", "two consecutive windows with the same arms and different middle bases: a homopolymer junction c^(h+1) d^(h+1), or the last window of a record and the first of the next"),
+ "C02b": ("self_palindrome() returns a cached flag that is only refreshed when a k-mer is built from scratch", "a self-reverse-complement split k-mer reached by rolling (not first after a record start or an N), or any k-mer following one at a record start"),
+ "C03b": ("sample sequences read through raw_seq() (line breaks kept) instead of seq()", "a sample FASTA with wrapped sequence lines"),
+ "C04b": ("RefSka::new: first reference k-mer of every contig placed at (k-1)/2 instead of get_middle_pos()", "a reference contig with an N within its first k bases"),
+ "C05b": ("write_vcf transposes in blocks of 65536 columns and loses one (contig, position) pair per block boundary", "a reference longer than 65536 bases"),
+ "C06b": ("filter(): the --ambig-mask block moved before the row filter", "--ambig-mask with --filter no-const on a site whose distinct symbols are all ambiguity codes (R,Y -> N,N judged constant)"),
+ "C07b": ("extend() no longer pads rows absent from the merged file; padding deferred to save time", "one ska merge call with >= 3 files and a k-mer present in file i, absent from file j, present in a later file"),
+ "C08b": ("delete_samples: indices returned in request order by a new helper, forward cursor assumes ascending order", ">= 2 names listed in an order different from the file's"),
+ "C09b": ("MergeSkaDict::extend returns early when the other dictionary has no k-mers", "merging an .skf whose table was emptied by weed/filter, in any position but the first: its samples vanish"),
+ "C10b": ("delete_samples subtracts from the stored counts instead of recounting", "a saved weed --filter-ambig-as-missing pass followed by a delete that removes all unambiguous bases of a row that still holds an ambiguity code"),
+ "C11b": ("ska lo graph building: par_chunks_exact(n/threads) drops the remainder k-mers", "ska lo --threads >= 2 with a k-mer count not divisible by the thread count and a dropped k-mer near a variant"),
+ "C12b": ("rolling hash created once in SplitKmer::new and not re-seeded when build() restarts after an invalid base", "FASTQ, --min-count >= 2, a read with an N (or strict-filtered base) followed by >= k valid bases"),
+ "C13b": ("weed --reverse fast path selects rows per weed k-mer without de-duplication", "--reverse, weed file smaller than the skf and containing the same canonical split k-mer more than once"),
+ "C14b": ("MergeSkaArray::distance returns an empty matrix when the variant array is empty after filtering", "every k-mer surviving --min-freq is constant and present in all samples (e.g. identical samples): only the header is printed"),
+ "C15b": ("variant_dist: byte-identical middle bases short-circuit to distance 0", "two samples holding the same ambiguity code (or N) at a k-mer that still varies across >= 3 samples"),
+ "C16b": ("NtHashIterator::restart recomputes the forward hash only; the reverse-strand hash keeps rolling from before the N", "reads (hash in use), two-strand mode, an N followed by >= k valid bases"),
+ "C17b": ("snps.vcf: genotype indices computed against ALT in first-appearance order while ALT is printed sorted", "ska lo -r, a site with >= 2 non-reference alleles whose alphabetically larger ALT appears first among the samples"),
+ "C18b": ("same idea as seeded/C18, found independently: allele strings chosen with >=, bitsets with >", "an indel carried by exactly half of the samples"),
+ "C19b": ("merge(): later inputs loaded on a prefetch thread; a load error only closes the channel", "ska merge a.skf DAMAGED.skf c.skf: exits 0 and writes a file with a's samples only"),
+ "C20b": ("CoverageHistogram::new: break instead of skip at the first read without a valid split k-mer", "a read shorter than k or with every N-free stretch shorter than k, followed by more reads in the same file"),
 }
 HISTORY = {
  "C10": "missed by the first version of the C10 check (quick tier: no history reached two successive deletes on a table without low counts); the generator was strengthened (30% of histories start from twin samples so that every k-mer is in >= 2 samples; single-sample deletes favoured) and now reports it",
  "C11": "missed by the first version of the C11 check (sample counts stopped at 45, merge recursion depth <= 2); sample counts {69,70,72,149,150,161} with forced thread counts >= 8/16 were added and now report it",
+ "C05b": "missed by the version of the C05 check that existed when it was written (references stayed below 1200 bases); the large_reference stages (first contig 65300-67300 bases) were added to C04 and C05 and now report it",
+ "C09b": "missed by the version of the C09/C10 checks that existed when it was written (an emptied table was never merged); C09's CLI stage now merges the possibly empty filtered file in both orders and C10 histories continue with merges after the table became empty",
+ "C15b": "outside what the C15 check observed when it was written (lookup tables and stored codes only); the weights_in_use stage (pairwise distances over tables with ambiguity codes vs the uniform-weight model) was added and reports it",
+ "C03b": "reported by C01 and C02 but missed by C03 itself (sample files were written unwrapped); C03 now wraps sample FASTA files at generated widths",
  "C17": "missed by the first version of the C17 check (ska lo was always run with the default -m or 0.4); the -m values 0, 0.05, 0.4, 1 were added to the isolated-SNP stages and now report it",
 }
 res = {}
@@ -34,7 +59,13 @@ p = '/verif/notes/mutants-results.jsonl'
 if os.path.exists(p):
     for l in open(p):
         r = json.loads(l)
-        if r['id'].startswith('seeded-'): res[r['id'][7:]] = r
+        if r['id'].startswith('seeded-'):
+            k = r['id'][7:]
+            # later runs add checks; keep the union, newest verdict per check
+            if k in res:
+                res[k]['checks'].update(r.get('checks', {}))
+            else:
+                res[k] = r
 for pid, (what, needs) in NEEDS.items():
     d = f'/verif/seeded/{pid}'
     if not os.path.isdir(d): continue
@@ -49,7 +80,7 @@ for pid, (what, needs) in NEEDS.items():
       "checks_run_against_it": {k: {"exit": v["exit"], "verdict": "VIOLATION reported" if v["exit"] == 1 else ("held (missed)" if v["exit"] == 0 else "inconclusive"), "wall_s": v["wall"], "message": v["msg"][:240]} for k, v in checks.items()},
       "caught_by": [k for k, v in checks.items() if v["exit"] == 1],
       "check_history": HISTORY.get(pid, "caught by the check as first built"),
-      "how_run": "tools/mutants.py --patch seeded/%s/patch.diff (scratch worktree + private copy of the harness, quick tier, VERIF_SEED=1); final confirmation for selected ones by git -C /repo apply / ./run.sh / git checkout" % pid,
+      "how_run": "tools/mutants.py --patch seeded/%s/patch.diff (scratch worktree + private copy of the harness, quick tier, VERIF_SEED=1)" % pid,
     }
     json.dump(meta, open(d + '/meta.json', 'w'), indent=1)
     print(pid, meta["caught_by"], [k for k in checks if k not in meta["caught_by"]])
